@@ -28,6 +28,8 @@ pub struct SgenCfg {
     pub max_fields: usize,
     /// weight the root strongly towards a record (container-file profile)
     pub root_record: bool,
+    /// emit the `order` field attribute (with decorations)
+    pub field_order: bool,
 }
 
 impl SgenCfg {
@@ -48,6 +50,7 @@ impl SgenCfg {
             unions: true,
             max_fields: 6,
             root_record: false,
+            field_order: true,
         }
     }
     pub fn decorated() -> Self {
@@ -316,7 +319,7 @@ impl<'c, 'd> Gen<'c, 'd> {
                 if self.c.chance(1, 5) {
                     f.aliases.push(self.fresh(&["fa", "old"]));
                 }
-                if self.c.chance(1, 6) {
+                if self.cfg.field_order && self.c.chance(1, 6) {
                     f.order = Some(["ascending", "descending", "ignore"][self.c.pick(3)].to_string());
                 }
                 if self.c.chance(1, 6) {
